@@ -41,13 +41,15 @@ for o in "${outs[@]}"; do
       if [ -n "$g" ]; then t=0; while [ ! -e "$ctl/$g" ]; do sleep 0.01; t=$((t+1)); [ $t -gt 3000 ] && { log T; exit 7; }; done; fi
       [ "$fault" = exit_after_partial ] && exit 3
       [ "$fault" = sigkill_self ] && kill -9 $$
+      if [ "$fault" = sigkill_shell ]; then kill -9 $PPID; exit 3; fi   # the bash -c process itself dies by a signal
     fi
     echo "END $id"
   } > "$o" || exit 4
 done
 x=$(ctlval extra)
-if [ -n "$x" ]; then for f in $x; do mkdir -p "$(dirname "$f")"; echo "EXTRA $key $f" > "$f"; done; fi
+if [ -n "$x" ]; then for f in $x; do f=${f//%k/$sig}; mkdir -p "$(dirname "$f")"; echo "EXTRA $key $f" > "$f"; done; fi
 [ "$fault" = exit_after_all ] && exit 3
+if [ "$fault" = exit_after_all_noisy ]; then head -c 200000 /dev/zero | tr '\0' 'x'; echo; exit 3; fi
 if [ "$fault" = sigkill_after_all ]; then kill -9 $$; fi
 log E
 exit 0
